@@ -16,7 +16,7 @@ for d in seeded/*${1:-}*/; do
 import json,sys,os,re
 d,prop,code=sys.argv[1],sys.argv[2],int(sys.argv[3])
 am=json.load(open(os.path.join(d,'agent_meta.json'))) if os.path.exists(os.path.join(d,'agent_meta.json')) else {}
-res=[l.strip() for l in open(os.path.join(d,'confirm.log')) if l.startswith('RESULT')] if os.path.exists(os.path.join(d,'confirm.log')) else []
+res=[l.strip() for l in open(os.path.join(d,'confirm.log'),errors='replace') if l.startswith('RESULT')] if os.path.exists(os.path.join(d,'confirm.log')) else []
 finds=[l.split()[1]+" "+l.split()[3] for l in open(os.path.join(d,'detect.txt'))]
 meta={"property":prop,"title":am.get("title"),"files":am.get("files"),"what_it_breaks":am.get("what_it_breaks"),
  "needs_to_manifest":am.get("needs_to_manifest"),"demo":am.get("demo"),
